@@ -614,23 +614,26 @@ func OpaqueGlob(pattern string) []string { m, _ := filepath.Glob(pattern); retur
 // processRegexForCompare: a rules file that is missing or ambiguous is an error (not a
 // silent success), nothing is ever written, and otherwise the verdict is compareRegex's.
 //@ contract processRegexForCompare
-//@   tags C16 C12 C15
+//@   tags C16 C12 C15 C08
 //@   opt trust-pre readCurrentRegex/crs-layout
 //@   results r
 //@   requires id-shape: len(ruleId) >= 3
 //@   checks[C16] lookup-failure-reported: implies(called(Glob) && (resultOf(Glob, 1) != nil || len(resultOf(Glob, 0)) != 1), r != nil)
 //@   ensures[C15] reads-only: fsWrites() == old(fsWrites())
 //@   checks[C12] verdict: implies(called(compareRegex), r == resultOf(compareRegex, 0))
+//@   checks[C12,C08] reads-the-addressed-rule: implies(called(readCurrentRegex), argOf(readCurrentRegex, 1) == ruleId && argOf(readCurrentRegex, 2) == chainOffset && argOf(readCurrentRegex, 0) == resultOf(Glob, 0)[0])
+//@   checks[C12] compares-with-the-given-regex: implies(called(compareRegex), argOf(compareRegex, 0) == ruleId && argOf(compareRegex, 1) == regex && argOf(compareRegex, 2) == resultOf(readCurrentRegex, 0))
 
 // processRule: the rules file is looked up before anything is written; zero or several
 // matches are fatal (the function does not return), so on return exactly the one matching
 // file was handed to updateRegex.
 //@ contract processRule
-//@   tags C11 C16 C15 C12
+//@   tags C11 C16 C15 C12 C08
 //@   opt trust-pre updateRegex/crs-layout
 //@   requires id-shape: len(ruleId) >= 3
 //@   modifies fsWrites
 //@   checks[C16,C11,C12,C15] unique-rules-file: called(updateRegex) && len(resultOf(Glob, 0)) == 1 && resultOf(Glob, 1) == nil
+//@   checks[C11,C08] updates-the-addressed-rule: argOf(updateRegex, 1) == ruleId && argOf(updateRegex, 2) == chainOffset && argOf(updateRegex, 3) == resultOf(runAssemble, 0) && argOf(runAssemble, 0) == dataFilePath
 //@   checks[C15,C11] writes-only-that-file: lastWritePath() == resultOf(Glob, 0)[0]
 //@   ensures[C15,C11] one-write: fsWrites() == old(fsWrites())+1
 
@@ -694,26 +697,29 @@ func OpaqueGlob(pattern string) []string { m, _ := filepath.Glob(pattern); retur
 //@   checks[C16,C09] something-was-formatted: implies(r == nil, called(processFile) || called(processAll))
 
 //@ contract processAll
-//@   tags C16 C09
+//@   tags C16 C09 C15 C08
 //@   results r
 //@   modifies fsWrites
+//@   checks[C15,C08,C09] walks-the-assembly-directory: called(WalkDir) && argOf(WalkDir, 0) == resultOf(AssemblyDir, 0)
 //@   checks[C16,C09] a-failed-file-fails-the-run: implies(failed, r != nil)
 //@   checks[C16] a-failed-walk-fails-the-run: implies(called(WalkDir) && resultOf(WalkDir, 0) != nil, r != nil)
 
 // ---- C12 / C16: compare returns the verdict: the single-rule verdict as it is, and in an
 // --all run in GitHub mode a remembered difference fails the run
 //@ contract performCompare
-//@   tags C12 C16
+//@   tags C12 C16 C15 C08
 //@   opt trust-pre processRegexForCompare/id-shape
 //@   results r
+//@   checks[C15,C08] walks-the-assembly-directory: implies(processAll, called(WalkDir) && argOf(WalkDir, 0) == resultOf(AssemblyDir, 0))
 //@   checks[C12,C16] single-rule-verdict-is-returned: implies(!processAll, called(processRegexForCompare) && r == resultOf(processRegexForCompare, 0))
 //@   checks[C12,C18] single-rule-uses-the-parsed-values: implies(!processAll, argOf(processRegexForCompare, 0) == ruleValues.id && argOf(processRegexForCompare, 1) == ruleValues.chainOffset)
 //@   checks[C12,C16] a-difference-fails-the-github-run: implies(processAll && failed && rootValues.output == gitHub, r != nil)
 
 //@ contract performUpdate
-//@   tags C11 C18
+//@   tags C11 C18 C15 C08
 //@   opt trust-pre processRule/id-shape
 //@   modifies fsWrites
+//@   checks[C15,C08] walks-the-assembly-directory: implies(processAll, called(WalkDir) && argOf(WalkDir, 0) == resultOf(AssemblyDir, 0))
 //@   checks[C11,C18] single-rule-uses-the-parsed-values: implies(!processAll, called(processRule) && argOf(processRule, 0) == ruleValues.id && argOf(processRule, 1) == ruleValues.chainOffset)
 
 //@ contract createCompareCommand#2
@@ -776,6 +782,18 @@ func OpaqueGlob(pattern string) []string { m, _ := filepath.Glob(pattern); retur
 // ---- C18: the nearest-root search is applied to the -d argument only; without -d the working
 // directory itself is the root
 //@ directive[C18] callers-of cmd.findRootDirectory cmd.workingDirectory.Set
+
+// ---- C18: the -d flag stores the NEAREST root found from the given directory, not the directory
+//@ extern filepath.Abs
+//@   params p
+//@   results r err
+//@   ensures implies(err == nil, len(r) > 0 && r[0] == '/')
+
+//@ contract workingDirectory.Set
+//@   tags C18
+//@   results err
+//@   checks[C18] the-nearest-root-is-stored: implies(err == nil, called(findRootDirectory) && resultOf(findRootDirectory, 1) == nil && *w == resultOf(findRootDirectory, 0) && argOf(findRootDirectory, 0) == resultOf(Abs, 0))
+//@   checks[C18,C16] no-root-is-an-error: implies(called(findRootDirectory) && resultOf(findRootDirectory, 1) != nil, err != nil)
 
 // ---- C14 / C16: update-copyright only runs with a version that Masterminds/semver accepts (the
 // read-side patterns are proved to match every such version, reglemmas in package regex), and it
